@@ -332,6 +332,9 @@ pub fn build_model_json(step: &Value) -> (Value, usize, Vec<String>) {
 }
 
 fn c14_step(step: &Value, probe: &str, tainted: &mut bool) -> Value {
+    // the healthy computation that follows is, when possible, the intact version of the very
+    // model that was just edited (the user undoes the edit), otherwise the job's probe model
+    let probe = step["probe_base"].as_str().unwrap_or(probe);
     let mut r = recompute(step);
     let faulted_failed = r["i1"] == "panic" || r["i1"] == "fuel";
     if r["class"] != "loaded" {
@@ -542,14 +545,25 @@ pub fn run(_ctx: &mut WorkerCtx, job: &Value) -> JobOutput {
     let mut tainted = false;
     let mut results = vec![];
     let mut probe_ref_failed: Option<Value> = None;
+    let steps = job["steps"].as_array().cloned().unwrap_or_default();
     if mode == "c14" && !probe.is_empty() {
-        if let Err(p) = ensure_probe_ref(&probe) {
-            // the healthy model itself fails in a fresh process: reported as such
-            probe_ref_failed = Some(site_json(&p));
-            tainted = true;
+        // isolated references first, before any faulted step runs in this process
+        let mut probes: Vec<String> = vec![probe.clone()];
+        for st in &steps {
+            if let Some(pb) = st["probe_base"].as_str() {
+                if !probes.iter().any(|p| p == pb) {
+                    probes.push(pb.to_string());
+                }
+            }
+        }
+        for pb in probes {
+            if let Err(p) = ensure_probe_ref(&pb) {
+                // the healthy model itself fails in a fresh process: reported as such
+                probe_ref_failed = Some(site_json(&p));
+                tainted = true;
+            }
         }
     }
-    let steps = job["steps"].as_array().cloned().unwrap_or_default();
     for step in &steps {
         if tainted {
             results.push(json!({"class":"skipped_after_taint"}));
